@@ -92,7 +92,7 @@ fn run_program(out: &mut TraceOut, rng: &mut StdRng, bus: Rc<RefCell<VirtualSign
     let (w, h) = typ.dimensions();
     // now and then a long list: more than 256 pages / more than 64 KiB / more than 4096 chunks in one transfer
     let npages = if rng.gen_range(0..40) == 0 { [200usize, 300, 700][rng.gen_range(0..3)] } else { rng.gen_range(0..=4) };
-    let pages: Vec<Page<'static>> = (0..npages).map(|i| random_page(rng, [0u8, 1, 0x7F, 0xFF, 0x10][i % 5], w, h)).collect();
+    let pages: Vec<Page<'static>> = (0..npages).map(|i| random_page(rng, [0xFEu8, 0xFF, 0x00, 0xFF, 0xFF, 0x10, 0x7F][i % 7], w, h)).collect();
     if !do_call(out, &sign, "send_pages", typ, &pages).starts_with("Ok") {
         return;
     }
